@@ -2,6 +2,7 @@
 // All operands are integer matrices on which float arithmetic is exact; see c05.hpp.
 #pragma once
 #include "c05_exact.hpp"
+#include <atomic>
 
 namespace c05 {
 
@@ -130,7 +131,71 @@ template <class T> void run_det ()
             }
             t.flush ();
         }) && ok;
-        std::string b = std::string ("det(AB) = det A det B: all 390625 L(2) 2x2 pairs, all ") + (pm ? "3^18 {-1,0,1}" : "2^18 0/1") + " 3x3 pairs, all 65536 0/1 4x4 x 6 fixed factors on both sides";
+        // 4x4, zero patterns of the last column (the term-skipping branches of Matrix44::determinant) on the FACTOR and on the
+        // PRODUCT: the dense factor DETPROD_B[4] with its last column zeroed according to each of the 16 patterns, on either
+        // side of every 0/1 matrix. Entries of a product are <= 4*3, so 24 * 12^4 < 2^24: exact in float.
+        int BP[16][16];
+        for (int p = 0; p < 16; ++p)
+            for (int i = 0; i < 16; ++i) BP[p][i] = (i % 4 == 3 && !((p >> (i / 4)) & 1)) ? 0 : DETPROD_B[4][i];
+        std::atomic<unsigned> prod_patterns (0);
+        std::atomic<long long> n_pat (0);
+        auto lc_pattern = [] (const int* a, const int* b) { // zero pattern of the last column of a*b
+            unsigned pat = 0;
+            for (int i = 0; i < 4; ++i)
+            {
+                int s = 0;
+                for (int k = 0; k < 4; ++k) s += a[i * 4 + k] * b[k * 4 + 3];
+                if (s != 0) pat |= 1u << i;
+            }
+            return pat;
+        };
+        ok = vf::parallel_chunks (65536, 1u << 9, [&] (uint64_t lo, uint64_t hi, unsigned) {
+            Tally    t;
+            int      a[16];
+            unsigned seen = 0;
+            for (uint64_t i = lo; i < hi; ++i)
+            {
+                ex::decode (i, 2, 16, a, 0);
+                for (int p = 0; p < 16; ++p)
+                {
+                    check_detprod<T, 4> (a, BP[p], t); seen |= 1u << lc_pattern (a, BP[p]);
+                    check_detprod<T, 4> (BP[p], a, t); seen |= 1u << lc_pattern (BP[p], a);
+                }
+            }
+            prod_patterns |= seen;
+            n_pat += (long long) (hi - lo) * 32;
+            t.flush ();
+        }) && ok;
+        // every {-1,0,1} upper-left 3x3 block in an affine 4x4 frame (last column (0,0,0,1), last row (2,-1,3,1)) on either
+        // side of all 22 factors. |entries of a product| <= 21, 9*9*9*21*24 < 2^24: exact in float.
+        ok = vf::parallel_chunks (19683, 1u << 8, [&] (uint64_t lo, uint64_t hi, unsigned) {
+            Tally    t;
+            int      blk[9], a[16];
+            unsigned seen = 0;
+            for (uint64_t i = lo; i < hi; ++i)
+            {
+                ex::decode (i, 3, 9, blk, -1);
+                for (int r = 0; r < 3; ++r) { for (int c = 0; c < 3; ++c) a[r * 4 + c] = blk[r * 3 + c]; a[r * 4 + 3] = 0; }
+                a[12] = 2; a[13] = -1; a[14] = 3; a[15] = 1;
+                for (int k = 0; k < 22; ++k)
+                {
+                    const int* b = k < 6 ? DETPROD_B[k] : BP[k - 6];
+                    check_detprod<T, 4> (a, b, t); seen |= 1u << lc_pattern (a, b);
+                    check_detprod<T, 4> (b, a, t); seen |= 1u << lc_pattern (b, a);
+                }
+            }
+            prod_patterns |= seen;
+            n_pat += (long long) (hi - lo) * 44;
+            t.flush ();
+        }) && ok;
+        R ().cls ("detprod44.factor-and-product-last-column-zero-patterns", n_pat.load ());
+        {
+            int np = 0;
+            for (int i = 0; i < 16; ++i) if (prod_patterns.load () >> i & 1) ++np;
+            R ().note ("detprod44_product_last_column_zero_patterns_seen." + tl, std::to_string (np) + " of 16");
+            if (ok && np != 16) R ().fail ("harness.detprod44-product-last-column-patterns", tl, "16", std::to_string (np));
+        }
+        std::string b = std::string ("det(AB) = det A det B: all 390625 L(2) 2x2 pairs, all ") + (pm ? "3^18 {-1,0,1}" : "2^18 0/1") + " 3x3 pairs, all 65536 0/1 4x4 x (6 fixed factors + 16 last-column zero patterns of a dense factor) on both sides, all 19683 {-1,0,1} affine-framed 4x4 x 22 factors on both sides";
         if (ok) R ().stage_done (b); else R ().stage_partial (b);
     }
 }
